@@ -801,6 +801,35 @@ fn c_params(c: &Case, rep: &mut Rep) {
                 if by_val != by_arc || by_val.as_montgomery() != by_arc.as_montgomery() || by_arc.retrieve() != by_val.retrieve() {
                     rep.fail("BoxedMontyForm.new_with_arc_eq_new", format!("x={}", hex(&xv)));
                 }
+                // trait-level constructors / accessors (`Monty`, `Retrieve`) are the inherent ones
+                // (never executed by any workload according to the coverage audit)
+                {
+                    use crypto_bigint::modular::Retrieve;
+                    let tp = <BoxedMontyForm as Monty>::new_params_vartime(odb(m));
+                    if tp != bpv {
+                        rep.fail("BoxedMontyForm.Monty::new_params_vartime_eq_inherent", "parameters differ".into());
+                    }
+                    let t_new = <BoxedMontyForm as Monty>::new(x.clone(), bp.clone());
+                    if t_new != by_val || Monty::as_montgomery(&t_new) != by_val.as_montgomery() || Monty::params(&t_new) != by_val.params() {
+                        rep.fail("BoxedMontyForm.Monty::new_eq_inherent", format!("x={}", hex(&xv)));
+                    }
+                    if Retrieve::retrieve(&t_new) != by_val.retrieve() {
+                        rep.fail("BoxedMontyForm.Retrieve::retrieve_eq_inherent", format!("x={}", hex(&xv)));
+                    }
+                    if <BoxedMontyForm as Monty>::zero(bp.clone()) != BoxedMontyForm::zero(bp.clone()) {
+                        rep.fail("BoxedMontyForm.Monty::zero_eq_inherent", "differs".into());
+                    }
+                    if <BoxedMontyForm as Monty>::one(bp.clone()) != BoxedMontyForm::one(bp.clone()) {
+                        rep.fail("BoxedMontyForm.Monty::one_eq_inherent", "differs".into());
+                    }
+                    if by_val.bits_precision() != 64 * m.len() as u32 {
+                        rep.fail("BoxedMontyForm.bits_precision", format!("{}", by_val.bits_precision()));
+                    }
+                    let zero_expected = (to_big(&xv) % to_big(m)) == BigUint::from(0u8);
+                    if bool::from(by_val.is_zero()) != zero_expected || bool::from(by_val.is_nonzero()) == zero_expected {
+                        rep.fail("BoxedMontyForm.is_zero_iff_residue_zero", format!("x={}", hex(&xv)));
+                    }
+                }
                 let want = to_big(&xv) % to_big(m);
                 if bb(&by_arc.retrieve()) != want {
                     rep.fail("BoxedMontyForm.new_with_arc.retrieve_eq_x_mod_m", format!("x={}", hex(&xv)));
